@@ -79,7 +79,13 @@ def main(argv):
         return 0
     stratum, seed, start, n, tier, outfile = argv[1], int(argv[2]), int(argv[3]), int(argv[4]), argv[5], argv[6]
     out = open(outfile, "a")
+    max_viol = int(os.environ.get("VERIF_MAX_VIOL_PER_BATCH", "4"))
+    nviol = 0
     for i in range(start, start + n):
+        if nviol >= max_viol:
+            # enough witnesses from this batch: do not spend the run on a tree that is already refuted
+            out.write(json.dumps({"skipped": start + n - i, "s": stratum}) + "\n")
+            break
         out.write(json.dumps({"start": i}) + "\n")
         out.flush()
         faulthandler.dump_traceback_later(CASE_WALL_S, exit=True)
@@ -90,6 +96,7 @@ def main(argv):
         faulthandler.cancel_dump_traceback_later()
         rec = {"s": stratum, "i": i, "h": case_hash(case), "o": obs.to_json(), "t": round(time.time() - t0, 3)}
         if obs.violations:
+            nviol += 1
             if hasattr(prop, "shrink"):
                 try:
                     faulthandler.dump_traceback_later(CASE_WALL_S, exit=True)
